@@ -1,5 +1,12 @@
 import UberjobModel.Model.Engine
 import UberjobModel.Model.Kahn
+import UberjobModel.Model.FileStoreDrv
+import UberjobModel.Model.TextCodecDrv
+import UberjobModel.Model.TimeDrv
+import UberjobModel.Model.RefsDrv
+import UberjobModel.Model.PlanDrv
+import UberjobModel.Model.SmallDrv
+import UberjobModel.Model.CacheDrv
 /-!
   Line-protocol driver for the executable models (one request per line, one reply per line).
   Used by the Python harness for the correspondence checks (T2/T3).
@@ -66,6 +73,7 @@ structure Ctx where
   cfg : Engine.Cfg := ⟨1, some 0⟩
   st : Engine.St := Engine.init (Engine.Graph.ofEdges [] [])
   dead : Bool := false      -- a label was rejected; later events of this trace are not applied
+  cache : Cache.DrvSt := {}
 
 def parseEdges (s : String) : List (Nat × Nat) :=
   (s.splitOn " ").filterMap (fun t =>
@@ -102,6 +110,20 @@ def step (c : Ctx) (line : String) : Ctx × String :=
   match (line.splitOn " ").filter (· ≠ "") with
   | "engine" :: _ => cmdEngine (line.drop 6).toString
   | "kahn" :: _ => (c, cmdKahn line)
+  | "fs" :: _ => (c, Uberjob.FileStore.drv line)
+  | "text" :: _ => (c, Uberjob.TextCodec.drv line)
+  | "c18" :: _ => (c, Uberjob.Time.drv line)
+  | "c16" :: _ => (c, Uberjob.Refs.drv line)
+  | "c02" :: _ => (c, Uberjob.Plan.drv line)
+  | "tb" :: _ | "retry" :: _ => (c, Uberjob.Small.drv line)
+  | "cplan" :: _ => let (d, r) := Cache.drv c.cache line; ({ c with cache := d }, r)
+  | "cop" :: _ => let (d, r) := Cache.drv c.cache line; ({ c with cache := d }, r)
+  | "cstale" :: _ => (c, (Cache.drv c.cache line).2)
+  | "ctm" :: _ => (c, (Cache.drv c.cache line).2)
+  | "cval" :: _ => (c, (Cache.drv c.cache line).2)
+  | "cfs" :: _ => (c, (Cache.drv c.cache line).2)
+  | "cseen" :: _ => (c, (Cache.drv c.cache line).2)
+  | "craw" :: _ => (c, (Cache.drv c.cache line).2)
   | "ev" :: ts =>
     if c.dead then (c, "dead") else
     match parseLabel ts with
